@@ -171,6 +171,8 @@ def gen_points(rng, n1, n2, r_km, mi_s, big=False):
         c = rng.choice(centres)
         if big:
             return clampk(c[0] + rng.uniform(-box, box), c[1] + rng.uniform(-box, box))
+        if rng.random() < 0.12:
+            return c          # exactly on the centre: longitude exactly +-180, latitude exactly +-90, (0, 0)
         return offset_point(rng, c[0], c[1], rng.uniform(0, spread))
     spread = rng.choice([0.5, 1.5, 3.0, 10.0]) * r_m
     span_s = rng.choice([0, max(1, mi_s // 2), mi_s * 3, mi_s * 20]) if not big else mi_s * rng.choice([40, 150, 400])
@@ -380,6 +382,37 @@ def gen_broadcast(rng):
     return [c1, c2]
 
 
+def gen_edges(rng):
+    """every primary sits EXACTLY on an edge of the coordinate ranges (longitude +180 / -180, a pole, the equator, the
+    Greenwich meridian) and has a partner within distance and interval; both orders of the datasets"""
+    c = gen_call(rng)
+    r_km = float(dist_km(c["dist"]))
+    mi_s = ivl_ns(c["ivl"]) // SEC
+    K8 = 10 ** 8
+    spots = [(rng.uniform(-70, 70), 180.0), (rng.uniform(-70, 70), -180.0), (90.0, rng.uniform(-179, 179)),
+             (-90.0, rng.uniform(-179, 179)), (0.0, 0.0), (0.0, rng.uniform(-179, 179)), (rng.uniform(-70, 70), 0.0),
+             (rng.uniform(-70, 70), 180.0)]
+    rng.shuffle(spots)
+    spots = spots[:rng.choice([1, 2, 4, 8])]
+    prim, seco = [], []
+    for i, (la, lo) in enumerate(spots):
+        latk, lonk = int(round(la / KEY)) if la not in (90.0, -90.0, 0.0) else int(la) * K8, \
+            int(round(lo / KEY)) if lo not in (180.0, -180.0, 0.0) else int(lo) * K8
+        t = 3600 * SEC + i * 5 * mi_s * SEC
+        prim.append([1000 + i, t, latk, lonk])
+        q = offset_point(rng, latk, lonk, r_km * 1000 * rng.choice([0.0, 0.3, 0.9]))
+        seco.append([5000 + i, t + rng.choice([0, (mi_s * SEC) // 2]), q[0], q[1]])
+    if rng.random() < 0.5:
+        prim, seco = seco, prim
+        for p in prim:
+            p[0] = p[0] - 4000
+        for q in seco:
+            q[0] = q[0] + 4000
+    c.update({"P": to_dataset(rng, prim, "flat"), "S": to_dataset(rng, seco, "flat"), "start": None, "end": None,
+              "wstyle": "none"})
+    return c
+
+
 def gen_case(rng, k, big=False, quick=False):
     if big:
         # both size orderings (the binned path swaps the datasets when the secondary is the larger one)
@@ -389,7 +422,9 @@ def gen_case(rng, k, big=False, quick=False):
         return {"id": k, "kind": "stale", "calls": gen_stale(rng)}
     if style < 0.15:
         return {"id": k, "kind": "broadcast", "calls": gen_broadcast(rng)}
-    if style < 0.30:
+    if style < 0.22:
+        return {"id": k, "kind": "edges", "calls": [gen_edges(rng)]}
+    if style < 0.34:
         calls = [gen_single00(rng)]
         if rng.random() < 0.5:
             calls.insert(0, gen_call(rng))
